@@ -7,7 +7,7 @@
    registered custom type.                                                   *)
 From Coq Require Import NArith ZArith List String Bool.
 From V Require Import Base.UString Base.Json Model.SchemaTypes Model.PyBase Spec.SchemaRefine Model.RegistryBuilder
-                      Gen.Tables Gen.SpecTables Proofs.SchemaTables Proofs.C19Inherit.
+                      Gen.Tables Gen.SpecTables Proofs.SchemaTables Proofs.C19Inherit Proofs.C19InheritRefine.
 From V Require Model.Registry.
 Import ListNotations.
 
@@ -66,14 +66,16 @@ Qed.
 Lemma extended_world_refines_lemma : forall bv k V n xt user cn,
   forallb slot_kind_ok user = true ->
   find_class (wclasses spec_relaxed) (custom_cid cn) = None ->
+  name_ok_for k n = true ->
   world_refines (world_add lib k V n (custom_cls bv k V n xt user cn))
                 (world_add spec_relaxed k V n (custom_cls bv k V n xt user cn)) = true.
 Proof.
-  intros bv k V n xt user cn HK HF. apply world_refines_add_lemma.
+  intros bv k V n xt user cn HK HF HN. apply world_refines_add_lemma.
   - exact lib_refines_relaxed.
   - exact HF.
   - reflexivity.
   - apply custom_refines_itself_lemma. exact HK.
+  - exact HN.
 Qed.
 
 (* no built-in class id has the form of a custom class id, so the freshness premise always holds *)
